@@ -918,6 +918,10 @@ theorem tie_optionsReachTheNodes (c : Multi.Ctor) (o : Options) : Multi.optsAtNo
   unfold Multi.optsAtNode
   rw [tie_optsForwardedAtEveryHop c]; simp
 
+/-- the `Must…` constructors of monc hand their options on as well. -/
+theorem tie_mustNewForward : Multi.hopForwards optsForwarding "monc.MustNewModel" = true
+    ∧ Multi.hopForwards optsForwarding "monc.MustNewNodeModel" = true := by decide
+
 /-- NewNode configures the node with the two fields of `newOptions(opts...)`, each into its own field. -/
 theorem tie_newNodeOptionFields : newNodeOptionFields = ["expr:o.Expiry", "expr:o.NotFoundExpiry"] := by decide
 
